@@ -66,8 +66,20 @@ except ValueError as e:
     r = "SUITError" if type(e).__name__ == "SUITError" else "ValueError"
 except BaseException as e:
     r = type(e).__name__
-print("RESULT", r, round(time.perf_counter() - t, 3))
+import resource
+print("RESULT", r, round(time.perf_counter() - t, 3), resource.getrusage(resource.RUSAGE_SELF).ru_maxrss // 1024)
 """
+
+
+def shared_reference_bomb(n):
+    """L_k = 28([L_{k-1}, 29(index of L_{k-1})]): compact when decoded with value sharing, 2^n copies when re-encoded without"""
+    import cbor2
+
+    def rec(k, idx):
+        if k == 0:
+            return bytes.fromhex("d81c80")
+        return bytes.fromhex("d81c82") + rec(k - 1, idx + 1) + bytes.fromhex("d81d") + cbor2.dumps(idx + 1)
+    return rec(n, 0)
 
 
 def deep_rejections(res, tier):
@@ -82,22 +94,28 @@ def deep_rejections(res, tier):
         for kind in ("try", "run"):
             for tag, inner in (("bad-argument-type", (14, b"")), ("unknown-command", (99, 0)), ("odd-length", (14, 0, 14)), ("valid", (14, 0))):
                 jobs.append((lv, kind, tag, nested_envelope(lv, kind, inner)))
+    import cbor2
+    for n in ([6, 14, 20, 24, 32] if tier == "quick" else [2, 6, 10, 14, 18, 20, 22, 24, 28, 32, 48, 64]):
+        bomb = shared_reference_bomb(n)
+        jobs.append((n, "manifest", "shared-references", bytes.fromhex("d86ba103") + bomb))
+        jobs.append((n, "manifest-bstr", "shared-references", cbor2.dumps(cbor2.CBORTag(107, {3: bomb}))))
+        jobs.append((n, "wrapper", "shared-references", cbor2.dumps(cbor2.CBORTag(107, {2: bomb, 3: cbor2.dumps({1: 1, 2: 1})}))))
 
     def one(job):
         lv, kind, tag, b = job
         try:
             p = subprocess.run([common.PY, "-c", _PARSE_ONE, str(common.REPO)], input=b.hex(), capture_output=True, text=True, timeout=limit)
         except subprocess.TimeoutExpired:
-            return job, "no-answer", limit
+            return job, "no-answer", limit, 0
         for line in p.stdout.splitlines():
             if line.startswith("RESULT "):
-                _, r, dt = line.split()
-                return job, r, float(dt)
-        return job, "crash:" + p.stderr[-200:], 0.0
+                _, r, dt, rss = line.split()
+                return job, r, float(dt), int(rss)
+        return job, "crash:" + p.stderr[-200:], 0.0, 0
 
     with ThreadPoolExecutor(max_workers=14) as ex:
         outs = list(ex.map(one, jobs))
-    for (lv, kind, tag, b), r, dt in outs:
+    for (lv, kind, tag, b), r, dt, rss in outs:
         res.case(["deep", lv, kind, tag], nontrivial=True)
         res.count("deep:" + tag + ":" + r.split(":")[0])
         if r == "no-answer":
@@ -105,6 +123,9 @@ def deep_rejections(res, tier):
                                       "what": f"no answer within {limit} s for a {len(b)}-byte envelope with {lv} nested levels (time not bounded by the input size)"})
         elif r not in OKCLASSES:
             res.spec_failures.append({"input": b.hex(), "kind": f"deep:{kind}:{tag}", "impl": r, "what": "the envelope parser let an unrelated internal error escape"})
+        elif rss > 600 + len(b) // 1000:
+            res.spec_failures.append({"input": b.hex(), "kind": f"deep:{kind}:{tag}", "peak_rss_mb": rss, "length": len(b), "levels": lv,
+                                      "what": f"peak memory {rss} MB for a {len(b)}-byte input (memory far beyond the input size)"})
         elif tag == "valid" and r != "ok":
             res.spec_failures.append({"input": b.hex(), "kind": f"deep:{kind}:{tag}", "impl": r, "what": "a well-formed nested envelope was rejected"})
         elif tag != "valid" and r == "ok":
@@ -114,9 +135,46 @@ def deep_rejections(res, tier):
                                       "what": "parse time far beyond a linear budget (2 s + 2 ms/byte)"})
 
 
+def has_indefinite(b: bytes) -> bool:
+    """does the first CBOR item of `b` use an indefinite length anywhere (outside the model: cbor2 accepts it, the model does not)?"""
+    pos = 0
+    todo = 1
+    try:
+        while todo:
+            todo -= 1
+            ib = b[pos]
+            pos += 1
+            major, ai = ib >> 5, ib & 31
+            if ai == 31:
+                return major in (2, 3, 4, 5)
+            if ai < 24:
+                arg = ai
+            elif ai <= 27:
+                w = 1 << (ai - 24)
+                arg = int.from_bytes(b[pos:pos + w], "big")
+                pos += w
+            else:
+                return False
+            if major in (2, 3):
+                pos += arg
+            elif major == 4:
+                todo += arg
+            elif major == 5:
+                todo += 2 * arg
+            elif major == 6:
+                todo += 1
+            if todo > 100000:
+                return False
+    except IndexError:
+        return False
+    return False
+
+
 def py_lenient_ok(b: bytes, depth=0) -> bool:
     """would cbor2 (lenient, trailing bytes ignored) hand the SUIT layer only values inside the model's domain?"""
     import cbor2
+    if has_indefinite(b):
+        return False
     try:
         v = cbor2.loads(b)
     except Exception:
@@ -162,6 +220,24 @@ def build_inputs(tier, seed, res):
             b = bytes.fromhex(r["ok"])
             if len(b) < 6000:
                 envs.append(b)
+    # one base envelope that carries every optional structure the generator only sometimes emits: CWT claims of every type in an
+    # authentication block payload and in a delegation chain, encryption info with nested recipients, every severable member
+    blk = {"CoseSign1Tagged": {"protected": {"suit-cose-algorithm-id": "cose-alg-es-256", "suit-cose-key-id": 7}, "unprotected": {},
+                               "payload": {"Issuer": "iss", "Subject": "sub", "Audience": "aud", "Expiration Time": 1893456000, "Not Before": -5,
+                                           "Issued At": 0, "CW ID": "ff01"}, "signature": "ab" * 64}}
+    full = {"SUIT_Envelope_Tagged": {
+        "suit-delegation": [[blk], [blk, blk]],
+        "suit-authentication-wrapper": {"SuitDigest": {"suit-digest-algorithm-id": "cose-alg-sha-256"}, "SuitAuthentication0": blk},
+        "suit-manifest": {"suit-manifest-version": 1, "suit-manifest-sequence-number": 2,
+                          "suit-common": {"suit-components": [["M", 1, "abc"]]},
+                          "suit-install": {"suit-digest-algorithm-id": "cose-alg-sha-256"},
+                          "suit-text": {"suit-digest-algorithm-id": "cose-alg-sha-256"}},
+        "suit-install": [{"suit-directive-set-component-index": 0}],
+        "suit-text": {"en": {"suit-text-manifest-description": "d"}}}}
+    r = suitcases.run_impl_create(full, {})
+    if "ok" in r:
+        envs.insert(0, bytes.fromhex(r["ok"]))
+        res.count("base:full-structure")
     budget_nodes = 4200 if tier == "quick" else 9000
     for b in envs:
         root = ct.decode(b)
